@@ -17,6 +17,11 @@
 (*     "obs"    sum_t c_t prod_{w in ws_t} z_w, z = 1 - 2 bit  (a diagonal *)
 (*              observable: linear combination of Pauli-Z words)           *)
 (*     "proj"   1 if the bits at sel equal st, else 0 (basis projector)    *)
+(*     "herm"   a Hermitian observable given as a matrix on the wires sel, *)
+(*              whose spectrum (with multiplicity, in ANY order) is ev:    *)
+(*              the samples are taken in its eigenbasis and outcome b is   *)
+(*              the b-th smallest eigenvalue (eigenvalues of a Hermitian   *)
+(*              matrix are listed in ascending order), i.e. SortAsc(ev)[b+1] *)
 (*     "mv"     sum_t c_t prod_{w in ws_t} bit_w (arithmetic on mid-       *)
 (*              circuit measurement values; m & n = m*n, ~m = 1 - m, ...)  *)
 (*   ao    : all_outcomes (counts)                                         *)
@@ -46,6 +51,17 @@ BitKind(mp) == mp.src \in {"wires", "mvlist"}             \* outcomes are bit st
 SelOf(mp, nw) == IF mp.sel = <<>> THEN Iota(nw) ELSE mp.sel
 
 (* ------------------------------ value of one shot ---------------------- *)
+\* the rationals of qs in ascending order (with multiplicity)
+RECURSIVE SortAsc(_)
+SortAsc(qs) ==
+  IF qs = <<>> THEN <<>>
+  ELSE LET i == CHOOSE i \in 1..Len(qs) : \A j \in 1..Len(qs) : ~RLess(qs[j], qs[i])
+       IN <<qs[i]>> \o SortAsc([j \in 1..(Len(qs) - 1) |-> IF j < i THEN qs[j] ELSE qs[j + 1]])
+\* law of SortAsc: ascending, and every value occurs as often as in qs
+SortLaw(qs) == LET s == SortAsc(qs) IN
+  /\ Len(s) = Len(qs)
+  /\ \A j \in 1..(Len(s) - 1) : ~RLess(s[j + 1], s[j])
+  /\ \A j \in 1..Len(qs) : Cardinality({i \in 1..Len(qs) : qs[i] = qs[j]}) = Cardinality({i \in 1..Len(s) : s[i] = qs[j]})
 RECURSIVE Mono(_, _, _, _)
 Mono(ws, row, z, j) == IF j = 0 THEN 1 ELSE Mono(ws, row, z, j - 1) * (IF z THEN 1 - 2 * row[ws[j]] ELSE row[ws[j]])
 RECURSIVE PolyUpTo(_, _, _, _)
@@ -56,6 +72,7 @@ ShotVal(mp, row) ==
   CASE mp.src = "eig"  -> mp.ev[Index(row, mp.sel) + 1]
     [] mp.src = "obs"  -> PolyUpTo(mp.terms, row, TRUE, Len(mp.terms))
     [] mp.src = "mv"   -> PolyUpTo(mp.terms, row, FALSE, Len(mp.terms))
+    [] mp.src = "herm" -> SortAsc(mp.ev)[Index(row, mp.sel) + 1]
     [] mp.src = "proj" -> IF \A j \in 1..Len(mp.sel) : row[mp.sel[j]] = mp.st[j] THEN ROne ELSE RZero
 
 \* the outcome of every possible shot: tab[f + 1] for the shot with index f
@@ -138,15 +155,21 @@ RECURSIVE SumLast(_)
 SumLast(T) == IF T = {} THEN 0 ELSE LET p == CHOOSE q \in T : TRUE IN p[Len(p)] + SumLast(T \ {p})
 RECURSIVE RSumUpTo(_, _)
 RSumUpTo(v, k) == IF k = 0 THEN RZero ELSE RAdd(RSumUpTo(v, k - 1), v[k])
+\* the measurement process whose value on every shot is minus the value of cm (value kinds): the expectation value and every
+\* sampled value / counts key change sign (in particular the table <<-1, 1>> is not the table <<1, -1>>), the variance does not
+Negated(cm) == [cm EXCEPT !.tab = [f \in 1..Len(cm.tab) |-> -cm.tab[f]]]
 \* r = Result(cm, ix), C = FullCounts(ix, cm.nw)
 Laws(cm, ix, r, C) ==
   CASE cm.kind = "probs"  -> /\ RSumUpTo(r, Len(r)) = ROne
                              /\ r = ResultC(cm, C)
     [] cm.kind = "counts" -> /\ SumLast(r) = Len(ix)
                              /\ r = ResultC(cm, C)
+                             /\ (~cm.bit => Result(Negated(cm), ix) = {<<-p[1], p[2], p[3]>> : p \in r})
                              /\ {p \in r : p[Len(p)] > 0} = Result([cm EXCEPT !.ao = FALSE], ix)
-    [] cm.kind = "expval" -> r = ResultC(cm, C)
+    [] cm.kind = "expval" -> /\ r = ResultC(cm, C)
+                             /\ Result(Negated(cm), ix) = RNeg(r)
     [] cm.kind = "var"    -> /\ r = ResultC(cm, C)
+                             /\ Result(Negated(cm), ix) = r
                              /\ r = VarianceAlt(cm, TLCEval(Outcomes(cm, ix)))
                              /\ r[1] >= 0
                              /\ (r[1] = 0) = (\A i \in 1..Len(ix) : cm.tab[ix[i]] = cm.tab[ix[1]])
